@@ -208,6 +208,13 @@ func c12ConsumerFacts(l *lean) {
 		{"credentialMapShape", "auth/api/iam/session.go", "credentialMap", "*PEXConsumer"},
 		{"newPEXConsumerShape", "auth/api/iam/session.go", "newPEXConsumer", ""},
 		{"resolveInputDescriptorValuesShape", "auth/api/iam/s2s_vptoken.go", "resolveInputDescriptorValues", ""},
+		{"presenterBuildSubmissionShape", "vcr/holder/presenter.go", "buildSubmission", "presenter"},
+		{"formatsMatchShape", "vcr/credential/formats.go", "Match", "Formats"},
+		{"normalizeFormatShape", "vcr/credential/formats.go", "normalizeFormat", "Formats"},
+		{"normalizeParameterShape", "vcr/credential/formats.go", "normalizeParameter", "Formats"},
+		{"normalizeParametersShape", "vcr/credential/formats.go", "normalizeParameters", "Formats"},
+		{"difClaimFormatsShape", "vcr/credential/formats.go", "DIFClaimFormats", ""},
+		{"openIDSupportedFormatsShape", "vcr/credential/formats.go", "OpenIDSupportedFormats", ""},
 	} {
 		sh := c12Shape(fn.rel, fn.name, fn.recv)
 		l.def(fn.lean, "List String", leanStrList(sh), sh)
